@@ -258,11 +258,11 @@ def oracle_cli(case, impl, want):
     for k, (c, (loc, tg)) in enumerate(zip(ref.conns, conns)):
         over = c["st"] == "over" or (c["tunnel"] and not ref.alive and c["st"] != "pending")
         if over and want == "reclamation":
-            # piped directly to a forward address the end whose own peer hung up first is left to that peer; through the tunnel both ends are closed
-            if loc == "0" and not (not c["tunnel"] and c["by"] == "app"):
+            # through the tunnel and piped directly to a forward address alike: both ends are closed, whichever peer hung up first
+            if loc == "0":
                 out.append(("local-connection-left-open;via=c02h", "local connection %d is over (%s) and was never closed towards the application (%s)" % (k, c["by"], case["line"])))
-            if tg == "o" and not (c["by"] == "target-eof" and not c["tunnel"]):
-                out.append(("target-left-open;via=c02h", "connection %d is over (%s) and the connection to its target was never closed (%s)" % (k, c["by"], case["line"])))
+            if tg == "o":
+                out.append(("target-left-open;via=c02h", "connection %d is over (%s) and the connection to its target%s was never closed (%s)" % (k, c["by"], "" if c["tunnel"] else " (the forward address)", case["line"])))
         elif c["st"] == "piping" and want == "isolation" and (loc == "1" or tg == "c"):
             out.append(("disturbed-by-other-connection;via=c02h", "connection %d, which nobody ended, lost its %s (%s)" % (k, "local connection" if loc == "1" else "target connection", case["line"])))
     seen = set()
